@@ -83,6 +83,7 @@ def run(tier):
     log(f"C05: {len(cases)} write histories ({len(corpus)} from the corpus), each written twice")
     written = check_cases(rep, cases)
     wc.check_history_determinism(rep, rng, tier)
+    wc.check_repeated(rep, rng, tier)
     if tier == "thorough":
         wc.check_limits(rep, PID)
     for c in (cases[len(corpus)], cases[len(cases) // 2], cases[-1]):
